@@ -172,6 +172,46 @@ func runC19(c C19Case, cs *kit.CaseStats) (err error) {
 			if node.CM.TipState().Index != node.CM.Tip() {
 				return fmt.Errorf("%s: TipState and Tip disagree", where)
 			}
+			// rebasing a transaction set needs the states of the blocks it starts
+			// from and the bodies of the blocks it walks over - nothing else. From
+			// the last pruned block (its state is kept), from the first kept block
+			// and from the tip, the pruned node answers like the unpruned twin.
+			if twin.CM.Tip() == node.CM.Tip() {
+				tipNode := node.TipNode()
+				var bases []*kit.TNode
+				for p := tipNode; p != nil && len(bases) < 3; p = p.Parent {
+					if p.Ledger == nil {
+						break
+					}
+					if p == tipNode || p.Height+1 == prunedBelow || p.Height == prunedBelow {
+						bases = append(bases, p)
+					}
+					if p.Height+1 < prunedBelow {
+						break
+					}
+				}
+				for _, bn := range bases {
+					if bn.Height+1 < tr.Network.HardforkV2.AllowHeight || tipNode.Height-bn.Height > 100 {
+						continue
+					}
+					bb := kit.NewBlockBuilder(bn.Ledger)
+					if !bb.Add(kit.Intent{Kind: "pay", V2: true, Who: si % kit.NumActors, To: (si + 1) % kit.NumActors, Pick: si, Amt: 2}) || len(bb.V2Txns) == 0 {
+						continue
+					}
+					mk := func() []types.V2Transaction { return []types.V2Transaction{bb.V2Txns[0].DeepCopy()} }
+					on, nerr := node.CM.UpdateV2TransactionSet(mk(), bn.Index(), tipNode.Index())
+					ot, terr := twin.CM.UpdateV2TransactionSet(mk(), bn.Index(), tipNode.Index())
+					if (nerr == nil) != (terr == nil) {
+						return fmt.Errorf("%s: UpdateV2TransactionSet from %v (pruned below %d) to the tip %v: pruned node err=%v, unpruned twin err=%v", where, bn.Index(), prunedBelow, tipNode.Index(), nerr, terr)
+					}
+					if nerr == nil && !sameEnc(encV2s(on), encV2s(ot)) {
+						return fmt.Errorf("%s: UpdateV2TransactionSet from %v to the tip returns different transactions on the pruned node and on the twin", where, bn.Index())
+					}
+					if bn.Height+1 == prunedBelow {
+						cs.Class("rebase-from-the-last-pruned-block")
+					}
+				}
+			}
 			// following the chain from below the pruned height needs pruned
 			// bodies: error, never a panic
 			if h > 0 && tip.Height > 0 {
